@@ -1105,7 +1105,7 @@ Mutations of this round (scratch worktrees, VERIF_SRC=...):
 Model level: SefoCodecSharp.cfg (skipper without float literals) violates IndexOK; FoamCodecAsWritten.cfg (no exemptions)
 violates ChoiceOK on TR / Prog / BInt -- the latter two are real: the replay of the node family into foam.c found that
 foamToBuffer truncates the `format' field of a Prog and the place count of a BInt (known_findings.jsonl, candidate patches
-hooks/candidate-C05-prog-format-width.diff, -bint-place-count-width.diff); the wide units found that the interpreter keeps DEnv
+hooks/fix-C05-prog-format-width.diff, -bint-place-count-width.diff); the wide units found that the interpreter keeps DEnv
 format numbers in bytes (candidate-C05-fint-denv-format-byte.diff) and the type programs that a library constant read through
 an archive crashes the client.  With the three candidate patches applied (worktree) the check holds with the cross-unit
 inlining and the archive-constant KNOWN-FINDING lines only.
